@@ -310,6 +310,14 @@ def run_on(fb, chk, tag=""):
                                 masked = True
                 good = masked
                 detail = show(rv)[:100]
+            if good and role == "acked_proto":
+                # the frontend's record is exactly the set it put on the wire (the request body is features.bits()):
+                # a masked or otherwise altered record makes frontend and backend disagree on REPLY_ACK
+                m = must_of(fb, f)
+                rv = m.sym.rvalue(w["rv"])
+                r, _chain = peel(rv, through_calls={"bits"})
+                good = r[0] == "param" and r[2] == "features" and not any(x[0] in ("bin", "un") for x in subterms(rv))
+                detail = show(rv)[:100]
             chk.check(good, "G5", key, "written only by the negotiation method %s" % detail,
                       "negotiated-state field %s (%s) written by %s %s" % (w["field"], role, f.short, detail),
                       f.loc(w["line"]))
